@@ -256,6 +256,11 @@ var richForms = []richForm{
 		// a CTE named like a table that already exists in the document
 		return "WITH u1 AS (SELECT rid, " + vf + "(n1) AS n1 FROM t1 WHERE n1 >= " + numConst(c, d) + ") SELECT rid, n1 FROM u1" + gen.Pick(c.R, []string{"", " UNION ALL SELECT rid, n1 FROM u1", " WHERE n1 IN (SELECT n1 FROM `<-u1`)"})
 	}},
+	{"cte.exec-time", true, false, func(c *fw.Case, d *richDoc, vf string) string {
+		// a CTE nobody reads while the query is built: its body runs when the
+		// first row asks for it, at execution time
+		return "WITH c1 AS (SELECT rid, " + vf + "(n1) AS v FROM t1) SELECT rid FROM t1 WHERE rid IN (SELECT rid FROM `<-c1`)" + gen.Pick(c.R, []string{"", " AND n1 IN (SELECT v FROM `<-c1`)", " OR rid < 0"})
+	}},
 	{"cte.union", true, false, func(c *fw.Case, d *richDoc, vf string) string {
 		return "WITH c1 AS (SELECT rid, " + vf + "(n1) AS v FROM t1) SELECT v FROM c1 " + gen.Pick(c.R, []string{"UNION", "UNION ALL"}) + " SELECT v FROM c1 WHERE v > " + numConst(c, d)
 	}},
@@ -328,6 +333,15 @@ var richForms = []richForm{
 	}},
 	{"plain.join-select", false, true, func(c *fw.Case, d *richDoc, vf string) string {
 		return "SELECT x.rid, x.s1, y.us1, (x.n1 + y.un1) AS s FROM t1 x LEFT JOIN u1 y ON x.n1 = y.un1 WHERE x.n1 >= 0"
+	}},
+	{"plain.table-qualified-items", false, false, func(c *fw.Case, d *richDoc, vf string) string {
+		// columns spelled with the table's own name outside comparisons: as
+		// select items, as function arguments, in arithmetic
+		return "SELECT t1.rid, t1.n1 + 1 AS v, CONCAT(t1.s1, '!') AS w, t1.obj FROM t1" + gen.Pick(c.R, []string{"", " WHERE t1.n1 >= " + numConst(c, d), " ORDER BY rid DESC"})
+	}},
+	{"plain.not-whole-rows", false, false, func(c *fw.Case, d *richDoc, vf string) string {
+		// NOT over an un-aliased table, whole rows in the same result
+		return gen.Pick(c.R, []string{"SELECT s1, *, COUNT(*) AS c FROM t1 WHERE NOT (n1 > " + numConst(c, d) + ") GROUP BY s1", "SELECT * FROM t1 WHERE NOT (n1 >= " + numConst(c, d) + " AND s1 = 'zz')", "SELECT s1, * FROM t1 WHERE NOT b1 = true GROUP BY s1"})
 	}},
 	{"plain.group-star", false, false, func(c *fw.Case, d *richDoc, vf string) string {
 		return "SELECT s1, *, COUNT(*) AS c, AVG(n1) AS a FROM t1 GROUP BY s1 ORDER BY c DESC, s1"
@@ -470,6 +484,12 @@ var typeErrorQueries = []struct{ name, sql string }{
 	{"badrow.join.key2", "SELECT x.rid FROM t1 x JOIN t1 y ON x.rid = y.rid AND x.`obj.k` = y.`obj.k`"},
 	{"badrow.join.key2-left", "SELECT x.rid FROM t1 x LEFT JOIN t1 y ON x.n1 = y.n1 AND x.rid = y.rid AND x.`obj.k` = y.`obj.k`"},
 	{"badrow.where.path", "SELECT rid FROM t1 WHERE `obj.k` >= 0"},
+	// ... the same through the table's alias: what the path cannot read is not re-read some other way
+	{"badrow.alias.select", "SELECT x.rid, x.obj.k AS k FROM t1 x"},
+	{"badrow.alias.where", "SELECT x.rid FROM t1 x WHERE x.obj.k >= 0"},
+	{"badrow.alias.derived", "SELECT q.rid, q.obj.k AS k FROM (SELECT rid, obj FROM t1) q"},
+	{"badrow.alias.case", "SELECT x.rid, CASE WHEN x.obj.k >= 0 THEN 'p' ELSE 'n' END AS sign FROM t1 x"},
+	{"alias.index-oob", "SELECT x.rid, `x.arr[99]` AS e FROM t1 x"},
 	{"selector.from", "SELECT * FROM `t1[last]`"},
 	{"selector.range", "SELECT * FROM `t1[(1:x)]` WHERE n1 >= 0"},
 	{"selector.column", "SELECT rid, `arr[abc].e` AS v FROM t1"},
